@@ -128,35 +128,65 @@ def effective(sig, c1, c2, ignore):
 # Source generation
 # ------------------------------------------------------------------------------------------
 
-def param_list(sig, ann):
-  t = ': int' if ann else ''
+def param_list(sig, ann, optional=()):
+  def t(n):
+    if not ann:
+      return ''
+    return ': typing.Optional[int]' if n in optional else ': int'
   eq = ' = ' if ann else '='
   parts = []
   for i, (n, d) in enumerate(sig['pos']):
-    parts.append('%s%s%s' % (n, t, '' if d is None else '%s%d' % (eq, d)))
+    parts.append('%s%s%s' % (n, t(n), '' if d is None else '%s%d' % (eq, d)))
     if i + 1 == sig.get('posonly', 0):
       parts.append('/')
   if sig['varargs'] is not None:
-    parts.append('*%s%s' % (sig['varargs'], t))
+    parts.append('*%s%s' % (sig['varargs'], t(None)))
   elif sig['kwonly']:
     parts.append('*')
   for n, d in sig['kwonly']:
-    parts.append('%s%s%s' % (n, t, '' if d is None else '%s%d' % (eq, d)))
+    parts.append('%s%s%s' % (n, t(n), '' if d is None else '%s%d' % (eq, d)))
   if sig['varkw'] is not None:
-    parts.append('**%s%s' % (sig['varkw'], t))
+    parts.append('**%s%s' % (sig['varkw'], t(None)))
   return parts
 
 
+POISON = 13      # hist cases: the generated __init__ raises ValueError when a named argument equals it
+
+
 def source_of(case, name):
+  """Source text of the original callable (and, for subclassed functors, of the pg.Functor class)."""
   sig, ann = case['sig'], case.get('ann', False)
-  ps = param_list(sig, ann)
+  ps = param_list(sig, ann, case.get('optional', ()))
   if case['kind'] == 'cls':
     return ('class %s:\n'
             '  def __init__(%s):\n'
             '    rec = dict(locals())\n'
             '    del rec["self"]\n'
             '    self.rec = rec\n' % (name, ', '.join(['self'] + ps)))
-  return 'def %s(%s):\n  return dict(locals())\n' % (name, ', '.join(ps))
+  if case['kind'] == 'hist':
+    names = sig_names(sig)
+    return ('class %s:\n'
+            '  def __init__(%s):\n'
+            '    rec = dict(locals())\n'
+            '    del rec["self"]\n'
+            '    if any(type(rec[n]) is int and rec[n] == %d for n in %r):\n'
+            '      raise ValueError("poisoned argument")\n'
+            '    self.rec = rec              # derived state computed by __init__\n'
+            'class %s_ref:\n'
+            '  def __init__(%s):\n'
+            '    rec = dict(locals())\n'
+            '    del rec["self"]\n'
+            '    self.rec = rec\n'
+            % (name, ', '.join(['self'] + ps), POISON, names, name, ', '.join(['self'] + ps)))
+  src = 'def %s(%s):\n  return dict(locals())\n' % (name, ', '.join(ps))
+  if case.get('via') == 'subclass':
+    # class X(pg.Functor) with annotated members and a zero-argument `_call` reading self.<member>
+    members = ''.join('  %s: typing.Any%s\n' % (n, '' if d is None else ' = %d' % d) for n, d in sig['pos'])
+    body = ', '.join('%s=self.%s' % (n, n) for n, _ in sig['pos'])
+    src += ('class %s_sub(pg.Functor):\n%s'
+            '  def _call(self):\n'
+            '    return dict(%s)\n' % (name, members or '  pass\n', body))
+  return src
 
 
 _COUNTER = [0]
@@ -170,7 +200,11 @@ def fresh_name(prefix):
 def gen_module():
   m = sys.modules.get(MODULE)
   if m is None:
+    import typing
+    import pyglove as pg
     m = types.ModuleType(MODULE)
+    m.typing = typing
+    m.pg = pg
     sys.modules[MODULE] = m
   return m
 
@@ -179,12 +213,39 @@ def gen_module():
 # Canonicalisation
 # ------------------------------------------------------------------------------------------
 
+# Argument values cross the protocol as ints. Codes <= 0 stand for the falsy Python values; the
+# model treats all of them as opaque scalars.
+SPECIALS = {-1: None, -2: '', -3: False, -4: []}
+
+
+def dec(v):
+  """wire code -> Python value (a fresh object for the list)."""
+  if v == -4:
+    return []
+  return SPECIALS[v] if v in SPECIALS else v
+
+
+def enc(v):
+  """Python value -> wire code (or a '<type>' token for anything unexpected)."""
+  if v is None:
+    return -1
+  if v is False:
+    return -3
+  if isinstance(v, str) and v == '':
+    return -2
+  if isinstance(v, (list, tuple)) and len(v) == 0:
+    return -4
+  if isinstance(v, bool) or not isinstance(v, int):
+    return '<%s>' % type(v).__name__
+  return v
+
+
 def canon_assignment(sig, loc):
   """locals() of the generated body -> {'named': [[n, v]], 'varargs': [...]|None, 'varkw': [[k, v]]|None}."""
   names = sig_names(sig)
-  out = {'named': [[n, loc[n]] for n in names],
-         'varargs': list(loc[sig['varargs']]) if sig['varargs'] is not None else None,
-         'varkw': [[k, v] for k, v in loc[sig['varkw']].items()] if sig['varkw'] is not None else None}
+  out = {'named': [[n, enc(loc[n])] for n in names],
+         'varargs': [enc(x) for x in loc[sig['varargs']]] if sig['varargs'] is not None else None,
+         'varkw': [[k, enc(v)] for k, v in loc[sig['varkw']].items()] if sig['varkw'] is not None else None}
   expected_keys = set(names) | {x for x in (sig['varargs'], sig['varkw']) if x is not None}
   if set(loc) != expected_keys:
     out['unexpected_locals'] = sorted(set(loc) ^ expected_keys)
@@ -227,22 +288,25 @@ def strip_kind(o):
   return {k: v for k, v in o.items() if k != 'kind'}
 
 
-def canon_value(v, missing):
-  if v == missing and isinstance(v, type(missing)):
-    return 'MISSING'
-  if isinstance(v, (list, tuple)):
-    return [canon_value(x, missing) for x in v]
-  if isinstance(v, bool) or not isinstance(v, int):
-    return '<%s>' % type(v).__name__
-  return v
-
-
-def canon_init_args(obj, missing):
-  return [[k, canon_value(v, missing)] for k, v in obj.sym_init_args.sym_items()]
+def canon_init_args(obj, missing, sig=None):
+  va = sig['varargs'] if sig else None
+  out = []
+  for k, v in obj.sym_init_args.sym_items():
+    if isinstance(v, type(missing)) and v == missing:
+      out.append([k, 'MISSING'])
+    elif k == va and isinstance(v, (list, tuple)):
+      out.append([k, [enc(x) for x in v]])
+    else:
+      out.append([k, enc(v)])
+  return out
 
 
 def kw(pairs):
-  return {k: v for k, v in pairs}
+  return {k: dec(v) for k, v in pairs}
+
+
+def pos(args):
+  return [dec(v) for v in args]
 
 
 def describe_signature(fn, drop_self):
@@ -273,7 +337,12 @@ class C18(Prop):
           'binding, valid calls split between construction and call, overlapping argument sets with and '
           'without override_args, surplus arguments with and without ignore_extra_args, plus a perturbation '
           'stream (missing required, duplicate positional/keyword, unknown keyword, too many positionals, '
-          'keywords named like the *args/**kwargs parameters). Non-trivial: at least one argument is '
+          'keywords named like the *args/**kwargs parameters); subclassed functors (`class X(pg.Functor)` with '
+          'annotated members and a zero-argument `_call` reading self.<member>); argument values are ints 1-9 '
+          'plus the falsy values 0 / False, None, \'\', [] at every binding stage; Optional[int] annotations '
+          'under auto_typing; a clone of the functor re-bound before the original is called; symbolized EXISTING '
+          'classes whose __init__ computes derived state and may raise, driven through histories construct -> '
+          'rebind* (some make __init__ raise, followed by recovering rebinds). Non-trivial: at least one argument is '
           'supplied and the signature has at least one parameter; distinct: by the whole case.')
   trusted_base = [
       'CPython argument binding (the reference of the differential; pyBind is validated against really '
@@ -284,14 +353,36 @@ class C18(Prop):
       '(hand-written from functor.py, object.py, class_wrapper.py; tied by correspondence only)',
       'outside the model: docstring parsing, auto_typing conversion of annotations (exercised by the '
       'generator, assumed value-preserving for int), return-value specs, functor auto-call scope, '
-      'pg.compound, subclassed functors (`class F(pg.Functor)`), MISSING_VALUE '
+      'pg.compound, MISSING_VALUE '
       'passed as an argument, non-scalar argument values',
   ]
-  assumptions = ['argument values are ints (opaque scalars); no argument is pg.MISSING_VALUE',
+  assumptions = ['argument values are opaque scalars (ints and the falsy values None, \'\', False, []); no argument '
+                 'is pg.MISSING_VALUE; in one case 0 and False do not both occur (they are == for pyglove)',
+                 'for a subclassed functor the member read `self.<m>` inside `_call` is modelled as the bound '
+                 'value overridden by the call-time value (Functor._sym_inferred)',
                  'positional-only parameters are not passed by keyword (known finding F62)',
                  'keywords are not named like the *args parameter (pyglove exposes it as a symbolic field)']
 
   # -- generation -------------------------------------------------------------------------
+
+  # value pool of the case being generated: ints 1-9 plus the falsy values (0 or False — never
+  # both in one case, since False == 0 for pyglove's default test), None, '', []
+  _falsy = [0, -1, -2, -4]
+  _specials = True
+
+  def val(self, rng):
+    if self._specials and rng.chance(0.25):
+      return rng.choice(self._falsy)
+    return rng.randint(1, 9)
+
+  def dflt(self, rng):
+    if 0 in self._falsy and rng.chance(0.1):
+      return 0
+    return rng.randint(1, 9)
+
+  def set_pool(self, rng, specials=True):
+    self._falsy = [rng.choice([0, -3]), -1, -2, -4]
+    self._specials = specials
 
   def gen_sig(self, rng, max_pos=4, max_kw=3):
     npos = rng.weighted([(2, 0), (4, 1), (5, 2), (4, 3), (2, 4)])
@@ -299,9 +390,9 @@ class C18(Prop):
     ndef = rng.randint(0, npos)
     pos = []
     for i in range(npos):
-      pos.append([POS_NAMES[i], rng.below(10) if i >= npos - ndef else None])
+      pos.append([POS_NAMES[i], self.dflt(rng) if i >= npos - ndef else None])
     nkw = min(rng.weighted([(5, 0), (4, 1), (3, 2), (1, 3)]), max_kw)
-    kwonly = [[KW_NAMES[i], rng.below(10) if rng.chance(0.5) else None] for i in range(nkw)]
+    kwonly = [[KW_NAMES[i], self.dflt(rng) if rng.chance(0.5) else None] for i in range(nkw)]
     sig = {'pos': pos, 'varargs': VARARGS if rng.chance(0.4) else None,
            'kwonly': kwonly, 'varkw': VARKW if rng.chance(0.4) else None}
     if npos and rng.chance(0.15):
@@ -316,17 +407,17 @@ class C18(Prop):
     args, kwargs = [], []
     for i, (n, d) in enumerate(pos):
       if i < k:
-        args.append(rng.below(10))
+        args.append(self.val(rng))
       elif d is None or rng.chance(0.5):
-        kwargs.append([n, d if (d is not None and rng.chance(0.25)) else rng.below(10)])
+        kwargs.append([n, d if (d is not None and rng.chance(0.25)) else self.val(rng)])
     if k == len(pos) and sig['varargs'] is not None and rng.chance(0.5):
-      args += [rng.below(10) for _ in range(rng.randint(1, 3))]
+      args += [self.val(rng) for _ in range(rng.randint(1, 3))]
     for n, d in sig['kwonly']:
       if d is None or rng.chance(0.5):
-        kwargs.append([n, d if (d is not None and rng.chance(0.25)) else rng.below(10)])
+        kwargs.append([n, d if (d is not None and rng.chance(0.25)) else self.val(rng)])
     if sig['varkw'] is not None and rng.chance(0.5):
       for n in rng.sample(EXTRA_NAMES, rng.randint(1, 2)):
-        kwargs.append([n, rng.below(10)])
+        kwargs.append([n, self.val(rng)])
     kwargs = rng.shuffle(kwargs)
     if partial:
       # Dropping a positional value is only possible from the end of the positional list.
@@ -341,16 +432,16 @@ class C18(Prop):
     names = sig_names(sig)
     k = rng.below(7)
     if k == 0:      # too many positionals (must not spill into keyword-only parameters)
-      call['args'] = call['args'] + [rng.below(10) for _ in range(
+      call['args'] = call['args'] + [self.val(rng) for _ in range(
           len(sig['pos']) - len(call['args']) + rng.randint(1, 1 + len(sig['kwonly'])))]
       if rng.chance(0.6):    # ... also when the keyword-only ones are not given by keyword
         kwn = [p[0] for p in sig['kwonly']]
         call['kwargs'] = [kv for kv in call['kwargs'] if kv[0] not in kwn or rng.chance(0.3)]
     elif k == 1 and call['args']:    # duplicate between positional and keyword
       n = sig['pos'][rng.below(min(len(call['args']), len(sig['pos'])))][0] if sig['pos'] else 'a'
-      call['kwargs'] = [kv for kv in call['kwargs'] if kv[0] != n] + [[n, rng.below(10)]]
+      call['kwargs'] = [kv for kv in call['kwargs'] if kv[0] != n] + [[n, self.val(rng)]]
     elif k == 2:    # unknown keyword
-      call['kwargs'].append([rng.choice(EXTRA_NAMES + ['w']), rng.below(10)])
+      call['kwargs'].append([rng.choice(EXTRA_NAMES + ['w']), self.val(rng)])
     elif k == 3 and call['kwargs']:   # drop a keyword (maybe required)
       call['kwargs'].pop(rng.below(len(call['kwargs'])))
     elif k == 4 and call['args']:     # drop trailing positionals
@@ -360,7 +451,7 @@ class C18(Prop):
     else:           # keyword for a parameter name the signature does not have
       others = [n for n in POS_NAMES + KW_NAMES if n not in names]
       if others:
-        call['kwargs'].append([rng.choice(others), rng.below(10)])
+        call['kwargs'].append([rng.choice(others), self.val(rng)])
     seen, out = set(), []
     for kv in call['kwargs']:
       if kv[0] not in seen:
@@ -402,11 +493,24 @@ class C18(Prop):
     return c1, c2
 
   def gen_case(self, rng, sig=None):
-    sig = sig or self.gen_sig(rng)
-    kind = 'cls' if rng.chance(0.22) else 'functor'
+    kind = rng.weighted([(22, 'cls'), (10, 'hist'), (68, 'functor')])
     ann = rng.chance(0.3)
-    case = {'kind': kind, 'via': 'symbolize' if (kind == 'cls' or rng.chance(0.4)) else 'functor',
-            'ann': ann, 'auto_typing': ann and rng.chance(0.5), 'sig': sig}
+    auto_typing = ann and rng.chance(0.5)
+    via = 'symbolize'
+    if kind == 'functor':
+      via = rng.weighted([(45, 'functor'), (30, 'symbolize'), (25, 'subclass')])
+    if via == 'subclass':
+      ann = auto_typing = False
+    # None / '' / False / [] are not ints: no special values where annotations are enforced
+    self.set_pool(rng, specials=not auto_typing)
+    sig = sig or self.gen_sig(rng)
+    if via == 'subclass':
+      sig = {'pos': sig['pos'], 'varargs': None, 'kwonly': [], 'varkw': None}
+    case = {'kind': kind, 'via': via, 'ann': ann, 'auto_typing': auto_typing, 'sig': sig}
+    if auto_typing:
+      case['optional'] = [n for n in sig_names(sig) if rng.chance(0.3)]
+    if kind == 'hist':
+      return self.gen_hist(rng, case)
     empty = {'args': [], 'kwargs': []}
     if kind == 'cls':
       call = self.gen_valid_call(rng, sig, partial=0.15 if rng.chance(0.3) else 0.0)
@@ -415,8 +519,8 @@ class C18(Prop):
       elif rng.chance(0.15):
         # arity pattern: more positionals than positional parameters, keyword-only ones partly omitted
         over = rng.randint(1, 1 + len(sig['kwonly']))
-        call = {'args': [rng.below(10) for _ in range(len(sig['pos']) + over)],
-                'kwargs': [[n, rng.below(10)] for n, _ in sig['kwonly'] if rng.chance(0.4)]}
+        call = {'args': [self.val(rng) for _ in range(len(sig['pos']) + over)],
+                'kwargs': [[n, self.val(rng)] for n, _ in sig['kwonly'] if rng.chance(0.4)]}
       case['mode'] = 'direct'
       case['c1'] = dict(call, override=False, ignore=False)
       return case
@@ -470,9 +574,9 @@ class C18(Prop):
         c2 = {'args': [], 'kwargs': [kv for kv in c2['kwargs'] if kv[0] not in taken]}
       c2 = {'args': list(c2['args']), 'kwargs': [list(kv) for kv in c2['kwargs']]}
       if rng.chance(0.6):
-        c2['kwargs'].append([rng.choice(EXTRA_NAMES), rng.below(10)])
+        c2['kwargs'].append([rng.choice(EXTRA_NAMES), self.val(rng)])
       if rng.chance(0.4) and not c1['args']:
-        c2['args'] = [rng.below(10) for _ in range(len(sig['pos']) + rng.randint(1, 2))]
+        c2['args'] = [self.val(rng) for _ in range(len(sig['pos']) + rng.randint(1, 2))]
         c2['kwargs'] = [kv for kv in c2['kwargs'] if kv[0] not in [p[0] for p in sig['pos']]]
       seen, out = set(), []
       for kv in c2['kwargs']:
@@ -490,6 +594,50 @@ class C18(Prop):
     case['c2'] = dict(c2, kwargs=dedupe(c2['kwargs']), **c2f)
     # the call (not the construction) runs under pg.enable_type_check(False) in ~12 % of the cases
     case['tc_call'] = not rng.chance(0.12)
+    if rng.chance(0.15) and sig_names(sig):
+      # a clone of the functor is re-bound before the original is called: must not affect the original
+      case['clone_upd'] = [[n, self.val(rng)] for n in rng.sample(sig_names(sig), rng.randint(1, min(2, len(sig_names(sig)))))]
+    return case
+
+  def gen_hist(self, rng, case):
+    """Symbolized existing class whose __init__ computes derived state and may raise: construct,
+    then a history of rebinds (some of them make __init__ raise)."""
+    sig = case['sig']
+    sig.pop('posonly', None)
+    case['mode'] = 'history'
+    call = self.gen_valid_call(rng, sig)
+    if rng.chance(0.1):
+      call = self.perturb(rng, sig, call)
+    case['c1'] = dict(call, kwargs=dedupe(call['kwargs']), override=False, ignore=False)
+    names = sig_names(sig)
+    # the generator tracks the named arguments so that every step changes something
+    n1 = name_args(sig, case['c1']['args'], case['c1']['kwargs'])
+    cur = {}
+    for n, d in sig['pos'] + sig['kwonly']:
+      if d is not None:
+        cur[n] = d
+    if n1 is not None:
+      cur.update((k, v) for k, v in n1[0])
+    steps = []
+    poisoned = None
+    for _ in range(rng.randint(1, 4) if names else 0):
+      upd = []
+      if poisoned is not None and rng.chance(0.7):
+        upd.append([poisoned, self.val(rng)])     # repair the argument that made __init__ raise
+        poisoned = None
+      elif rng.chance(0.35):
+        poisoned = rng.choice(names)
+        upd.append([poisoned, POISON])
+      for n in rng.sample(names, rng.randint(0 if upd else 1, min(2, len(names)))):
+        if all(n != k for k, _ in upd):
+          upd.append([n, self.val(rng)])
+      upd = [[k, v] for k, v in upd if cur.get(k, 'unset') != v] or [[names[0], 20 + len(steps)]]
+      for k, v in upd:
+        cur[k] = v
+      if all(v != POISON for v in cur.values()):
+        poisoned = None
+      steps.append({'upd': upd})
+    case['steps'] = steps
     return case
 
   def generate(self, rng, tier):
@@ -531,6 +679,8 @@ class C18(Prop):
     req = {'kind': case['kind'], 'sig': case['sig'], 'c1': case['c1'], 'fix29': True}
     if case['kind'] == 'functor':
       req['c2'] = case['c2']
+    if case['kind'] == 'hist':
+      req['steps'] = case['steps']
     return req
 
   def impl(self, case):
@@ -538,22 +688,22 @@ class C18(Prop):
     missing = pg.MISSING_VALUE
     sig = case['sig']
     mod = gen_module()
-    name = fresh_name('K' if case['kind'] == 'cls' else 'fn')
+    name = fresh_name('K' if case['kind'] in ('cls', 'hist') else 'fn')
     src = source_of(case, name)
     exec(compile(src, '<c18:%s>' % name, 'exec'), mod.__dict__)   # pylint: disable=exec-used
     plain = mod.__dict__[name]
     c1 = case['c1']
     a1, k1 = c1['args'], c1['kwargs']
-    attr = 'rec' if case['kind'] == 'cls' else None
+    attr = 'rec' if case['kind'] in ('cls', 'hist') else None
     model = {}
     obs = {'source': src}
 
     def direct(args, kwargs):
-      out = outcome(lambda: plain(*args, **kw(kwargs)), sig, with_kind=True, attr=attr)
+      out = outcome(lambda: plain(*pos(args), **kw(kwargs)), sig, with_kind=True, attr=attr)
       # second reference: inspect.signature(...).bind + apply_defaults
       def via_bind():
-        s = inspect.signature(plain.__init__ if case['kind'] == 'cls' else plain)
-        b = s.bind(*(([None] if case['kind'] == 'cls' else []) + list(args)), **kw(kwargs))
+        s = inspect.signature(plain.__init__ if case['kind'] in ('cls', 'hist') else plain)
+        b = s.bind(*((['self'] if case['kind'] in ('cls', 'hist') else []) + pos(args)), **kw(kwargs))
         b.apply_defaults()
         d = dict(b.arguments)
         d.pop('self', None)
@@ -563,17 +713,20 @@ class C18(Prop):
         obs.setdefault('bind_disagrees', []).append([args, kwargs, out, out2])
       return out
 
+    if case['kind'] == 'hist':
+      return self.impl_hist(case, pg, mod, name, plain, obs)
+
     model['py_c1'] = direct(a1, k1)
 
     if case['kind'] == 'cls':
       sym = pg.symbolize(plain, auto_typing=True) if case.get('auto_typing') else pg.symbolize(plain)
       made = {}
       def construct():
-        made['obj'] = sym(*a1, **kw(k1))
+        made['obj'] = sym(*pos(a1), **kw(k1))
         return made['obj']
       model['direct'] = outcome(construct, sig, attr='rec')
       obj = made.get('obj')
-      model['sym_init_args'] = canon_init_args(obj, missing) if obj is not None else None
+      model['sym_init_args'] = canon_init_args(obj, missing, sig) if obj is not None else None
       obs['init_signature'] = describe_signature(sym.__init__, True)
       obs['plain_signature'] = describe_signature(plain.__init__, True)
       if obj is not None:
@@ -581,7 +734,7 @@ class C18(Prop):
         obs['clone_deep'] = outcome(lambda: obj.clone(deep=True), sig, attr='rec')
         obs['json'] = outcome(lambda: pg.from_json(obj.to_json()), sig, attr='rec')
         try:
-          obs['json_init_args'] = canon_init_args(pg.from_json(obj.to_json()), missing)
+          obs['json_init_args'] = canon_init_args(pg.from_json(obj.to_json()), missing, sig)
         except Exception as e:   # pylint: disable=broad-except
           obs['json_init_args'] = 'raises:' + type(e).__name__
       return {'model': model, 'obs': obs}
@@ -604,7 +757,9 @@ class C18(Prop):
     opts = {}
     if case.get('auto_typing'):
       opts['auto_typing'] = True
-    if case['via'] == 'symbolize':
+    if case['via'] == 'subclass':
+      sym = mod.__dict__[name + '_sub']
+    elif case['via'] == 'symbolize':
       sym = pg.symbolize(plain, **opts)
     elif opts:
       sym = pg.functor_class(plain, add_to_registry=True, **opts)
@@ -617,7 +772,7 @@ class C18(Prop):
     if c1['ignore']:
       init_kw['ignore_extra_args'] = True
     try:
-      made['obj'] = sym(*a1, **init_kw)
+      made['obj'] = sym(*pos(a1), **init_kw)
       model['init'] = 'ok'
     except Exception as e:   # pylint: disable=broad-except
       model['init'] = type(e).__name__
@@ -626,7 +781,14 @@ class C18(Prop):
     obs['plain_signature'] = describe_signature(plain, False)
     if obj is None:
       return {'model': model, 'obs': obs}
-    model['sym_init_args'] = canon_init_args(obj, missing)
+    if case.get('clone_upd'):
+      # re-binding a clone must leave the original alone
+      try:
+        obj.clone().rebind(raise_on_no_change=False, **kw(case['clone_upd']))
+        obj.clone(deep=True).rebind(raise_on_no_change=False, **kw(case['clone_upd']))
+      except Exception as e:   # pylint: disable=broad-except
+        obs['clone_upd_error'] = type(e).__name__
+    model['sym_init_args'] = canon_init_args(obj, missing, sig)
     model['specified'] = sorted(obj.specified_args)
     model['default'] = sorted(obj.default_args)
     model['nondefault'] = sorted(obj.non_default_args)
@@ -638,16 +800,16 @@ class C18(Prop):
     import contextlib
     scope = (contextlib.nullcontext if case.get('tc_call', True) else (lambda: pg.enable_type_check(False)))
     with scope():
-      model['call'] = outcome(lambda: obj(*a2, **call_kw), sig)
+      model['call'] = outcome(lambda: obj(*pos(a2), **call_kw), sig)
       model['call0'] = outcome(lambda: obj(), sig)
     # the functor must not have been changed by being called
-    obs['init_args_after_call'] = canon_init_args(obj, missing)
+    obs['init_args_after_call'] = canon_init_args(obj, missing, sig)
     with scope():
-      obs['clone_call'] = outcome(lambda: obj.clone()(*a2, **call_kw), sig)
-      obs['clone_deep_call'] = outcome(lambda: obj.clone(deep=True)(*a2, **call_kw), sig)
+      obs['clone_call'] = outcome(lambda: obj.clone()(*pos(a2), **call_kw), sig)
+      obs['clone_deep_call'] = outcome(lambda: obj.clone(deep=True)(*pos(a2), **call_kw), sig)
     try:
       rt = pg.from_json(obj.to_json())
-      obs['json_init_args'] = canon_init_args(rt, missing)
+      obs['json_init_args'] = canon_init_args(rt, missing, sig)
       obs['json_call0'] = outcome(lambda: rt(), sig)
       obs['json_sets'] = [sorted(rt.specified_args), sorted(rt.default_args), sorted(rt.non_default_args)]
     except Exception as e:   # pylint: disable=broad-except
@@ -662,9 +824,74 @@ class C18(Prop):
     model['clone_call'] = obs['clone_call']
     return {'model': model, 'obs': obs}
 
+  def impl_hist(self, case, pg, mod, name, plain, obs):
+    missing = pg.MISSING_VALUE
+    sig = case['sig']
+    c1 = case['c1']
+    ref = mod.__dict__[name + '_ref']
+    model = {'py_c1': outcome(lambda: ref(*pos(c1['args']), **kw(c1['kwargs'])), sig, with_kind=True, attr='rec')}
+    sym = pg.symbolize(plain)
+    obs['init_signature'] = describe_signature(sym.__init__, True)
+    obs['plain_signature'] = describe_signature(plain.__init__, True)
+
+    def state(o):
+      try:
+        return canon_assignment(sig, o.rec)
+      except AttributeError:
+        return 'NOATTR'
+
+    try:
+      obj = sym(*pos(c1['args']), **kw(c1['kwargs']))
+      model['init'] = 'ok'
+    except Exception as e:   # pylint: disable=broad-except
+      obj = None
+      model['init'] = type(e).__name__
+    model['steps'] = []
+    if obj is not None:
+      model['rec'] = state(obj)
+      model['args'] = canon_init_args(obj, missing, sig)
+      for st in case['steps']:
+        try:
+          obj.rebind(raise_on_no_change=False, **kw(st['upd']))
+          res = 'ok'
+        except Exception as e:   # pylint: disable=broad-except
+          res = type(e).__name__
+        model['steps'].append({'res': res, 'rec': state(obj), 'args': canon_init_args(obj, missing, sig)})
+      # the wrapper state after the history survives clone and JSON round trip
+      final = model['steps'][-1] if model['steps'] else {'res': 'ok', 'rec': model['rec']}
+      if final['res'] == 'ok':
+        obs['final'] = final['rec']
+        obs['clone'] = outcome(lambda: obj.clone(), sig, attr='rec')
+        obs['json'] = outcome(lambda: pg.from_json(obj.to_json()), sig, attr='rec')
+    return {'model': model, 'obs': obs}
+
+  @staticmethod
+  def hist_prediction(model_out):
+    """The model does not know the body of __init__: it predicts what __init__ SEES; the harness
+    adds the body's rule (ValueError iff a named int argument equals POISON)."""
+    def step(sees):
+      if 'err' in sees:
+        return sees['err'], 'NOATTR'
+      if any(v == POISON for _, v in sees['ok']['named']):
+        return 'ValueError', 'NOATTR'
+      return 'ok', sees['ok']
+    out = {'py_c1': model_out['py_c1'], 'steps': []}
+    if model_out['init'] != 'ok':
+      out['init'] = model_out['init']
+      return out
+    res, rec = step(model_out['sees'])
+    out['init'] = res
+    if res != 'ok':
+      return out
+    out['rec'], out['args'] = rec, model_out['args']
+    for st in model_out['steps']:
+      res, rec = step(st['sees'])
+      out['steps'].append({'res': res, 'rec': rec, 'args': st['args']})
+    return out
+
   def compare(self, case, impl_out, model_out):
     a = impl_out['model']
-    b = dict(model_out)
+    b = self.hist_prediction(model_out) if case['kind'] == 'hist' else dict(model_out)
     for k in ('specified', 'default', 'nondefault', 'json_specified', 'json_default', 'json_nondefault'):
       if k in b:
         b[k] = sorted(b[k])
@@ -733,6 +960,9 @@ class C18(Prop):
       return None      # documented precondition: the *args parameter is a symbolic field of that name
     c1 = case['c1']
     n1 = name_args(sig, c1['args'], c1['kwargs'])
+
+    if case['kind'] == 'hist':
+      return self._oracle_hist(case, out, n1)
 
     if case['kind'] == 'cls':
       f = self._mismatch('direct-construction', m['py_c1'], m['direct'])
@@ -804,6 +1034,76 @@ class C18(Prop):
     stage = 'late-binding' if not (c1['args'] or c1['kwargs']) else 'two-stage'
     return self._mismatch(stage, m['py_eff'], m['call'])
 
+  def _oracle_hist(self, case, out, n1):
+    """After every step of construct -> rebind -> rebind ...: the wrapper either is in the state of
+    a directly constructed Original(*effective arguments) and reports those arguments, or the step
+    failed with the exception the direct construction raises."""
+    m, obs = out['model'], out['obs']
+    sig = case['sig']
+    c1 = case['c1']
+
+    def direct(named, va, extra):
+      call = to_call(sig, named, va, extra)
+      if any(v == POISON for _, v in named):
+        return {'err': 'ValueError'}, call
+      # the original class without the check is the generated `<name>_ref`; binding = model-free:
+      # reuse py_c1-style evaluation through the spec copy
+      return None, call
+
+    # construction
+    if n1 is None:
+      if m['init'] == 'ok':
+        return {'signature': 'accepts:%s:construction' % m['py_c1'].get('kind', '?'),
+                'what': 'Cls(*%s, **%s) is accepted, the original gives %s' % (c1['args'], c1['kwargs'], m['py_c1'])}
+      return None
+    named, va, extra = [list(kv) for kv in n1[0]], list(n1[1]), [list(kv) for kv in n1[2]]
+    expect_err, _ = direct(named, va, extra)
+    py = m['py_c1']
+    if expect_err is None and 'err' in py:
+      expect_err = {'err': py['err']}
+    if expect_err is not None:
+      if m['init'] != expect_err['err']:
+        return {'signature': 'history:construction:%s-instead-of-%s' % (m['init'], expect_err['err']),
+                'what': 'construction gives %s, the original raises %s' % (m['init'], expect_err['err'])}
+      return None
+    if m['init'] != 'ok':
+      return {'signature': 'rejects-valid-call:history-construction:%s' % m['init'],
+              'what': 'Cls(*%s, **%s) raises %s, the original gives %s' % (c1['args'], c1['kwargs'], m['init'], py)}
+    if m['rec'] != py['ok']:
+      return {'signature': 'wrong-assignment:history-construction',
+              'what': 'after construction the wrapper holds %s, the original %s' % (m['rec'], py['ok'])}
+    defaults = dict((n, d) for n, d in sig['pos'] + sig['kwonly'] if d is not None)
+    for i, (st, o) in enumerate(zip(case['steps'], m['steps'])):
+      named = merge_kw(named, st['upd'])
+      f = self._reported(sig, (named, va, extra), o['args'], 'history-step', full=True)
+      if f:
+        return f
+      full = dict(defaults)
+      full.update((k, v) for k, v in named)
+      exp_rec = {'named': [[n, full[n]] for n in sig_names(sig)],
+                 'varargs': list(va) if sig['varargs'] is not None else None,
+                 'varkw': [list(kv) for kv in extra] if sig['varkw'] is not None else None}
+      poisoned = any(v == POISON for v in full.values())
+      if poisoned:
+        if o['res'] != 'ValueError':
+          return {'signature': 'history:step-accepts-failing-init',
+                  'what': 'step %d %s: Original(*effective) raises ValueError, rebind gives %s / state %s' % (i, st['upd'], o['res'], o['rec'])}
+      else:
+        if o['res'] != 'ok':
+          return {'signature': 'history:step-raises:%s' % o['res'],
+                  'what': 'step %d %s: rebind raises %s, Original(*effective) constructs %s' % (i, st['upd'], o['res'], exp_rec)}
+        if o['rec'] != exp_rec:
+          prev_failed = i > 0 and m['steps'][i - 1]['res'] != 'ok'
+          return {'signature': 'history:stale-state%s' % ('-after-failed-init' if prev_failed else ''),
+                  'what': 'step %d %s: sym_init_args report %s but the wrapped instance holds %s; Original(*effective) '
+                          'holds %s' % (i, st['upd'], o['args'], o['rec'], exp_rec)}
+    if 'final' in obs:
+      for k in ('clone', 'json'):
+        if obs[k] != {'ok': obs['final']}:
+          return {'signature': 'roundtrip:history-%s' % k,
+                  'what': '%s of the wrapper after the history holds %s, the wrapper %s' % (k, obs[k], obs['final'])}
+    return None
+
   def _reported(self, sig, n1, reported, stage, full):
     """sym_init_args denote the supplied arguments: supplied value, else default, else MISSING."""
     if n1 is None or reported is None:
@@ -844,6 +1144,24 @@ class C18(Prop):
     if not case.get('tc_call', True):
       h.append('call-under-type-check-off')
     h.append('py_c1:%s' % (m['py_c1'].get('kind') or 'ok'))
+    h.append('via:%s' % case.get('via'))
+    vals = [v for c in [case['c1'], case.get('c2') or {'args': [], 'kwargs': []}]
+            for v in list(c['args']) + [x for _, x in c['kwargs']]]
+    for code, label in ((0, '0'), (-1, 'None'), (-2, "''"), (-3, 'False'), (-4, '[]')):
+      if code in vals:
+        h.append('value:%s' % label)
+    if case.get('optional'):
+      h.append('Optional-annotation')
+    if case.get('clone_upd'):
+      h.append('clone-rebound-before-call')
+    if case['kind'] == 'hist':
+      h.append('hist-init:%s' % m['init'])
+      h.append('hist-steps:%d' % len(m['steps']))
+      for i, st in enumerate(m['steps']):
+        h.append('hist-step:%s' % st['res'])
+        if i > 0 and m['steps'][i - 1]['res'] != 'ok' and st['res'] == 'ok':
+          h.append('hist:recovery-after-failed-init')
+      return h
     if case['kind'] == 'cls':
       h.append('direct:%s' % (m['direct'].get('err') or 'ok'))
     else:
@@ -884,6 +1202,22 @@ class C18(Prop):
         yield cand
     sig = case['sig']
     used = {k for cn in calls for k, _ in case[cn]['kwargs']}
+    used |= {k for st in case.get('steps', []) for k, _ in st['upd']}
+    used |= {k for k, _ in case.get('clone_upd', [])}
+    used |= set(case.get('optional', []))
+    for i in range(len(case.get('steps', []))):
+      cand = copy.deepcopy(case)
+      cand['steps'].pop(i)
+      yield cand
+      if len(case['steps'][i]['upd']) > 1:
+        for j in range(len(case['steps'][i]['upd'])):
+          cand = copy.deepcopy(case)
+          cand['steps'][i]['upd'].pop(j)
+          yield cand
+    if case.get('clone_upd'):
+      cand = copy.deepcopy(case)
+      del cand['clone_upd']
+      yield cand
     if sig['kwonly'] and sig['kwonly'][-1][0] not in used:
       cand = copy.deepcopy(case)
       cand['sig']['kwonly'].pop()
